@@ -377,7 +377,7 @@ fn main() {
         "links" => {
             // C10 grid: (link position, target position) over names {a,b} depth <= 3, target file/dir/missing,
             // absolute and relative spelling of the target
-            let names = ["a", "b"];
+            let names = ["a", "ab"];       // "ab" extends "a" character-wise (string-prefix vs component-wise mistakes)
             let mut pos: Vec<String> = vec![];
             for d in 1..=3 {
                 let mut layer = vec![String::new()];
